@@ -536,6 +536,7 @@ type pathRun struct {
 	reader  bool
 	busy    bool
 	removed bool // some entry was removed earlier in this history
+	interrupts int
 }
 
 func (pr *pathRun) errFail(op string, err error) *failure {
@@ -687,6 +688,23 @@ func (pr *pathRun) exec(op pathOp) *failure {
 		pr.rc.class("path/get/%s/%s", fs, hit)
 		kind, detail, id := comparePath(pathResultsOf(res), want, q.Groups)
 		if kind == "" {
+			// the same query once more with a context that is cancelled while the
+			// rows are read: it may fail, but what is returned without an error
+			// must be the complete answer
+			if len(want) >= 1 && op.Kind == "get" {
+				pr.interrupts++
+				ictx := newPollCtx(pr.ctx, int(pr.interrupts*5)%23)
+				res2, err2 := pr.rw.Get(ictx, q.params(pr.pool))
+				pr.rc.eval()
+				if err2 != nil {
+					pr.rc.event("path_get_interrupted_error")
+					return nil
+				}
+				pr.rc.event("path_get_interrupted_answered")
+				if k2, d2, _ := comparePath(pathResultsOf(res2), want, q.Groups); k2 != "" {
+					return failf("C27:path:get-interrupted:"+k2, "query %s with a context cancelled during the lookup returned no error, but: %s", fs, d2)
+				}
+			}
 			return nil
 		}
 		suffix := ""
@@ -1785,7 +1803,7 @@ func checkC27(r *mon.Run) {
 
 	r.Require(int64(nPath+nBeacon)*20, 150,
 		"path_insert_new", "path_insert_newer", "path_insert_equal", "path_insert_same", "path_insert_older",
-		"path_delete", "path_delete_expired", "path_get", "path_next_query", "path_tx_commit", "path_tx_rollback",
+		"path_delete", "path_delete_expired", "path_get", "path_get_interrupted_answered", "path_next_query", "path_tx_commit", "path_tx_rollback",
 		"beacon_insert_new", "beacon_insert_newer", "beacon_insert_equal", "beacon_insert_same", "beacon_insert_older",
 		"beacon_delete", "beacon_delete_expired", "beacon_get", "beacon_candidates",
 		"path_history_memory", "path_history_file", "path_history_file+reader", "path_concurrent_reads", "beacon_concurrent_reads")
